@@ -33,6 +33,8 @@ def render(run) -> str:
     o.append(f"PARENT {run['parent']}")
     o.append(f"PROBES {run['probes']}")
     o.append(f"SCRUB {run['scrub']}")
+    if run.get('slowlog'):
+        o.append(f"SLOWLOG {run['slowlog']}")
     for t in run['tasks']:
         o.append(f"TASK {t['name']}")
         for op in t['ops']:
@@ -314,3 +316,68 @@ def gen_c04_run(rng: Rng, mb, rid, faulty):
 
 def gen_c04_runs(rng: Rng, mb, n):
     return [gen_c04_run(rng.fork('h', i), mb, f"{'f' if i % 2 else 'n'}{i}", faulty=bool(i % 2)) for i in range(n)]
+
+
+# ------------------------------------------------------------------------------------------------ C11
+def gen_c11_run(rng: Rng, mb, rid):
+    """2-3 client threads run claim/use/release cycles with retry on denial, 1-2 peer threads raise requires out-events
+    that make the exclusive-arbiter component raise out-events on the multi-client port; the dispatcher is the
+    remaining task.  Fault kinds: release by a non-holder, slow ILog sink, dispatcher stalls."""
+    run = new_run(rid, mb.cfgspec['origin'])
+    mc = mb.mc
+    ports, events = mb.ports, mb.events
+    oc, ic, ih, oh = classify_events(ports, events)
+    n_clients = rng.between(2, 3)
+    run['clients'] = n_clients
+    mc_out = list(mc['out_events'])
+    others = list(mc['other_in'])
+    peer_events = [e['idx'] for e in oc if ports[e['port']]['dir'] == 'requires']
+    other_ports_in = [e['idx'] for e in oc if ports[e['port']]['dir'] == 'provides' and ports[e['port']]['sem'] != 'MC']
+    tasks = []
+    faults = []
+    for k in range(n_clients):
+        ops = []
+        if rng.chance(12):
+            ops.append(['O', mc['release'], k])     # fault: release without holding the claim
+            faults.append('rogue_release')
+        use = rng.choice(others) if (others and rng.chance(70)) else -1
+        ops.append(['Y', k, rng.between(5, 15), rng.between(1, 4), use, rng.between(0, 3), rng.between(0, 3)])
+        if rng.chance(12):
+            ops.append(['O', mc['release'], k])
+            faults.append('rogue_release')
+        tasks.append({'name': f'c{k}', 'ops': ops})
+    n_peers = rng.between(1, 2) if (peer_events or other_ports_in) else 0
+    for k in range(n_peers):
+        ops = []
+        for _ in range(rng.between(3, 12)):
+            if peer_events and (not other_ports_in or rng.chance(70)):
+                ops.append(['O', rng.choice(peer_events), -1])
+            else:
+                ops.append(['O', rng.choice(other_ports_in), 0])
+            if rng.chance(30):
+                ops.append(['W', rng.between(1, 5)])
+        tasks.append({'name': f'p{k}', 'ops': ops})
+    run['tasks'] = tasks
+    scripts = []
+    for e in ih:
+        is_ctl = e['idx'] in (mc['claim'], mc['release'])
+        for _ in range(rng.between(1, 3)):
+            follow = []
+            if mc_out and rng.chance(15 if is_ctl else 80):
+                follow = [rng.choice(mc_out) for _ in range(rng.between(1, 2))]
+            scripts.append([1, e['idx'], reply_value(rng, e) if e['idx'] != mc['claim'] else rng.below(8), 1 if rng.chance(88) else 0, follow])
+    for e in oh:
+        scripts.append([0, e['idx'], reply_value(rng, e), 1, []])
+    run['scripts'] = scripts
+    if rng.chance(20):
+        run['slowlog'] = rng.between(1, 3)
+        faults.append('slow_log_sink')
+    run['fault_plan'] = faults
+    total = sum(12 * op[2] if op[0] == 'Y' else 1 for t in tasks for op in t['ops'])
+    random_sched(rng, run, 30 * total + 100)
+    run['budget'] = 20000 + 2500 * total
+    return run
+
+
+def gen_c11_runs(rng: Rng, mb, n):
+    return [gen_c11_run(rng.fork('s', i), mb, f's{i}') for i in range(n)]
